@@ -42,6 +42,10 @@ def body(rng, n):
         return "RESTORE %d" % t
     if r < 0.94:
         return "ON Z GOTO %d,%d" % (t, rng.choice(UNIVERSE))
+    if r < 0.96:
+        return "DEF FNA(X)=X+%d" % n          # definitions live in the run, not in the listing: RUN n behind one must not see it
+    if r < 0.98:
+        return 'PRINT "f";FNA(1)'
     return 'A=A+1:PRINT "A";A'
 
 
@@ -98,6 +102,17 @@ def gen(tier, rng):
         calls += ["T", sess.E('PRINT "%s"' % MARK), "R100", sess.E(fin), "R100"]
         cases.append(Case(sess.session(calls), sig="history %d ending in %s" % (hi, fin), tag="history",
                           meta=("hist", hi, fin)))
+    # histories whose "edits" change nothing (deleting absent lines, retyping a line as it is) after a run that left definitions,
+    # variables, a DATA position and type defaults behind: RUN n must still behave as in a fresh interpreter with this listing
+    KEEP = ['10 DEF FNA(X)=X+1', '20 DEFINT Q:Q=2.6:A=7:DIM Z(3):Z(1)=5', '30 DATA 11,12', '40 READ D', '50 PRINT "f";FNA(1);Q;A;Z(1);D', '60 END']
+    NOOPS = [sess.E("15"), sess.E("45"), sess.E("LIST"), sess.E('PRINT "d"'), sess.E("70"), sess.E("CLEAR"), sess.E("GOTO 60"), sess.E("X=1")]
+    for hi in range(40 if tier == "quick" else 1500):
+        calls = ["R100"] + [sess.E(l) for l in KEEP] + [sess.E("RUN"), "R100"]
+        for _ in range(rng.randint(0, 3)):
+            calls += [rng.choice(NOOPS), "R100"]
+        fin = rng.choice(["RUN 50", "RUN 40", "RUN 20", "RUN", "RUN 60"])
+        calls += ["T", sess.E('PRINT "%s"' % MARK), "R100", sess.E(fin), "R100"]
+        cases.append(Case(sess.session(calls), sig="no-op history %d ending in %s" % (hi, fin), tag="history", meta=("hist", 100000 + hi, fin)))
     # stale resumption after an edit
     for ename, ecalls in STALE_EDITS:
         for probe, code in STALE_PROBES:
